@@ -39,7 +39,7 @@ check('C10', 'exploration',
 check('C19', 'exploration',
       "Forced schedules through hooks H1/H2: the consumer is parked exactly between its emptiness check and its wait while producers/close/reset run; every placement of "
       "1..3 producers x second consumer x closer is executed on the real pollQueue/packetQueue (conservation, contiguity, no consumer blocked with a non-empty queue at "
-      "quiescence, close hand-shake). Plus unforced stress and an end-to-end latency monitor over real long-polling with the window widened by a sleep hook.",
+      "quiescence, close hand-shake). Plus unforced stress, a lonely-packet ping-pong on the real sender loop (a packet added while the sender finishes the previous Send, nothing afterwards) and an end-to-end latency monitor over real long-polling with the window widened by a sleep hook.",
       "Relies on the hook call sites staying between check and wait; 'stranded' is observed 250 ms after logical quiescence while the consumer's own timeout is 1 h.",
       "hook-gated forced-schedule enumeration + conservation/latency monitors", "DESIGN.md §3 C19")
 
@@ -69,7 +69,7 @@ check('C03', 'exploration',
       "callback-count + reply-token monitor over timing sweeps; wire observer; post-condition probes", "DESIGN.md §3 C03")
 
 check('C17', 'exploration',
-      "The complete 1600-cell request matrix (method x EIO x transport x sid{absent,unknown,live,closed} x b64 x jsonp), run twice (live session on polling and on WebSocket; thorough: three cell "
+      "The complete request matrix (8 methods incl. PATCH, a raw-line CONNECT and an unknown token x EIO x transport x sid{absent,unknown,live,closed} x b64 x jsonp), run twice (live session on polling and on WebSocket; thorough: three cell "
       "orders each) against a real server over loopback HTTP with a set-valued protocol-table oracle and per-cell side-effect and liveness monitors; 1e5/1e6 generated ids and hundreds of "
       "concurrent live handshakes pairwise distinct; 60/600 rounds of handshakes racing Server.Close (seeded offsets, sleeping Authenticator or slow NewSocketCallback) decided by a counting "
       "oracle plus a porcupine 3-state model at quiescence with a 15 s watchdog.",
@@ -162,9 +162,9 @@ check('C15', 'fault_enumeration',
 
 check('C05', 'exploration',
       "Go programs: namespace sets of size 1..4 drawn from 11 look-alike names (prefixes of one another, digits, spaces, unicode, '?'), multiplexed on one Manager or on separate Managers, CONNECT reply order permuted "
-      "by per-namespace middleware delays, 40 interleaved steps {emit c->s, emit s->c, acks both ways, namespace broadcast} with every payload tagged by its namespace, then a single-namespace disconnect and probe "
+      "by per-namespace middleware delays, 40 interleaved steps {emit c->s, emit s->c, acks both ways, namespace broadcast} with every payload tagged by its namespace, concurrent bursts on all namespaces from both sides, then a single-namespace disconnect and probe "
       "round trips on all the others; oracle: set membership on the recorded log (a handler / ack / broadcast recorder of X only ever sees payloads tagged X). Raw protocol peer: 8 kinds of packets for namespaces "
-      "that are not joined or whose CONNECT is parked in a middleware must close the connection without any handler running; an event sent right after the CONNECT reply must be served (unforced and with hook H4 "
+      "that are not joined or whose CONNECT is parked in a middleware must close the connection without any handler running; leaving and re-joining one namespace in a single payload must not hurt a neighbour; an event sent right after the CONNECT reply must be served (unforced and with hook H4 "
       "widening the admission window).",
       "The Go client normalises '' to '/', so that pair is exercised through the raw peer only.",
       "tagged-payload membership oracle over generated programs; raw wire peer for invalid-state packets; hook-widened admission window", "DESIGN.md §3 C05")
